@@ -151,6 +151,9 @@ func strGsub(L *LState) int {
 	if err != nil {
 		L.RaiseError(err.Error())
 	}
+	if limit == 0 {
+		mds = nil
+	}
 	if len(mds) == 0 {
 		L.SetTop(1)
 		L.Push(LNumber(0))
